@@ -359,6 +359,24 @@ def live(rep, rnd, thorough):
             else:
                 n += client_case(rep, p["mode"], inp["max"], want, cert)
         optimised_interpreter(rep, cert, root)
+        builder_cases(rep, cert)
+        # a reverse-proxy location changes nothing about the listener: TLS only, on both backends
+        from nauyaca.server.location import HandlerType, LocationConfig
+        for bk in ("stdlib", "pyopenssl"):
+            for src in ("supplied", "generated"):
+                loc = LocationConfig(prefix="/proxied/", handler_type=HandlerType.PROXY, upstream="gemini://127.0.0.1:1", timeout=2.0)
+                root_loc = LocationConfig(prefix="/", handler_type=HandlerType.STATIC, document_root=root)
+                srv = RealServer(bk, src, root, cert, locations=[loc, root_loc])
+                servers[(bk, src, "proxy-location")] = srv
+                got = send_plain(srv.port, b"gemini://localhost/\r\n")
+                n += 1
+                if re.match(rb"^\d\d [^\r\n]*\r\n", got) or SENT.encode() in got:
+                    rep.violation({"formula": "PlaintextGetsNothing", "backend": bk, "cert": src, "proxy_location": True},
+                                  "%s backend (%s certificate) with a reverse-proxy location configured: a request without TLS obtained %r" % (bk, src, got[:60]), None)
+                ver, got = try_handshake(srv.port, 4)
+                n += 1
+                if ver != 4 or SENT.encode() not in got:
+                    rep.drifted("server with a proxy location: TLS 1.3 fetch of / gave version %s, %r" % (ver, got[:40]))
         rep.add("live_version_cases", n)
         rep.add("traces_validated_against_impl", n)
         rep.sample({"live_c20_cases": [{"path": dict(s["path"]), "input": dict(s["input"]), "expected": dict(s["out"])} for s in cases[:4]]})
@@ -370,6 +388,38 @@ def live(rep, rnd, thorough):
         cert.remove()
         other.remove()
         shutil.rmtree(root, ignore_errors=True)
+
+
+def builder_cases(rep, cert):
+    """Every TLS server context nauyaca can construct, also with the argument combinations start_server itself does not use
+    (the builders are public API): no handshake below TLS 1.2.  Security level 0 is applied to the context under test."""
+    from checks.live import LiveServer
+    from nauyaca.protocol.response import GeminiResponse
+    from nauyaca.security.pyopenssl_tls import create_pyopenssl_server_context
+    from nauyaca.security.tls import create_server_context
+    n = 0
+    for backend, builder in (("pyopenssl", create_pyopenssl_server_context), ("stdlib", create_server_context)):
+        for req in (True, False):
+            ctx = builder(cert.certfile, cert.keyfile, request_client_cert=req)
+            if backend == "pyopenssl":
+                ctx.set_cipher_list(b"ALL:@SECLEVEL=0")
+            else:
+                ctx.set_ciphers("ALL:@SECLEVEL=0")
+            srv = LiveServer(backend, lambda r: GeminiResponse(status=20, meta="text/gemini", body="# %s\n" % SENT), cert, ctx=ctx)
+            try:
+                for maxv in (1, 2, 3, 4):
+                    ver, got = try_handshake(srv.port, maxv)
+                    n += 1
+                    if ver in (1, 2):
+                        rep.violation({"formula": "NoOldVersion", "backend": backend, "builder": True, "request_client_cert": req},
+                                      "context built by the %s builder with request_client_cert=%s completed a TLS 1.%d handshake and answered %r" % (
+                                          backend, req, ver - 1, got[:30]), None)
+                    elif maxv >= 3 and ver != maxv:
+                        rep.violation({"formula": "ModernAccepted", "backend": backend, "builder": True},
+                                      "context built by the %s builder (request_client_cert=%s): peer offering up to TLS 1.%d negotiated %s" % (backend, req, maxv - 1, ver), None)
+            finally:
+                srv.stop()
+    rep.add("builder_cases", n)
 
 
 def optimised_interpreter(rep, cert, root):
